@@ -156,7 +156,7 @@ def run_history(case: dict[str, Any]) -> dict[str, Any]:
 
         name_via = var.get("name_via", "ctor")
         rl = ReconnectLogic(client=cli, on_connect=mk("on_connect"), on_disconnect=mk("on_disconnect"), on_connect_error=mk("on_connect_error"),
-                            name=None if var["addr"] == "local" or name_via == "attr" else "devold" if name_via == "rename" else "dev")
+                            name="" if name_via == "empty" else None if var["addr"] == "local" or name_via == "attr" else "devold" if name_via == "rename" else "dev")
         if name_via == "attr" and var["addr"] != "local":
             # the application learns the device name after constructing the manager (an entry configured by IP address) and assigns it
             rl.name = "dev"
@@ -294,7 +294,7 @@ def judge(case: dict[str, Any], o: dict[str, Any]) -> tuple[list[tuple[str, str]
     from aioesphomeapi.core import APIConnectionCancelledError
 
     out: list[tuple[str, str]] = []
-    st = {"attempts": 0, "attempts_failed": 0, "sessions": 0, "sessions_ended": 0, "mdns_delivered_matching": 0, "mdns_not_delivered": 0,
+    st = {"attempts": 0, "attempts_failed": 0, "sessions": 0, "sessions_ended": 0, "mdns_delivered_matching": 0, "mdns_not_delivered": 0, "mdns_not_delivered/while-waiting-between-attempts": 0,
           "due_checked": 0, "due_skipped": 0, "stops": 0, "starts": 0, "restarts(manager-cancelled)": 0, "justified_by/start": 0, "justified_by/backoff": 0,
           "justified_by/disconnect": 0, "justified_by/mdns": 0, "justified_by/lock-released-by-callback": 0, "refused-by-client(already connected)": 0}
     evs: list[tuple[int, float, str, Any]] = []
@@ -346,7 +346,12 @@ def judge(case: dict[str, Any], o: dict[str, Any]) -> tuple[list[tuple[str, str]
         return None
 
     slow = bool(case["variant"].get("slow_cb"))
+    in_backoff = False      # a failed attempt has been reported to the application and the next attempt has not started: the manager is waiting to retry
     for seq, t, kind, e in evs:
+        if kind == "cb:on_connect_error:ret":
+            in_backoff = True
+        elif kind in ("enter:start_connection", "call:stop:enter", "stop_cb", "call:start:enter"):
+            in_backoff = False
         if slow and kind.startswith("cb:") and kind.endswith(":ret"):
             # callbacks run under the manager's lock: an attempt that became due while a callback was suspended starts when it returns
             J.append((t, "lock-released-by-callback"))
@@ -398,6 +403,14 @@ def judge(case: dict[str, Any], o: dict[str, Any]) -> tuple[list[tuple[str, str]
             mk, n = e
             if n == 0:
                 st["mdns_not_delivered"] += 1
+                if mk.startswith("match") and phase == "idle" and not stopped and not stop_pending and not starts_in_progress and in_backoff \
+                        and st["starts"] == 1 and st["stops"] == 0 and not slow:
+                    # boundary oracle for "while it is waiting": a failed attempt has been reported, the retry has not started, nobody ever called
+                    # stop(): the manager IS waiting, so a matching record broadcast now must reach it - that no listener is registered (nothing was
+                    # delivered) is the failure, not an excuse
+                    st["mdns_not_delivered/while-waiting-between-attempts"] += 1
+                    out.append(("C18/not-listening-while-waiting", f"a matching mDNS record was broadcast at t={t:.6f} while the manager was waiting to retry "
+                                f"(failed attempt reported, no stop() ever called): no listener of the manager was registered on any zeroconf instance"))
             elif mk.startswith("match"):
                 st["mdns_delivered_matching"] += 1
                 actions.append((seq, t, "mdns"))
@@ -576,6 +589,8 @@ def judge(case: dict[str, Any], o: dict[str, Any]) -> tuple[list[tuple[str, str]
 VARIANTS = [{"addr": a, "noise": n, "zc": z, "slow_cb": sc} for a in ("ip", "local", "literal") for n in (False, True) for z in ("library", "supplied") for sc in (0.0, 0.0, 0.3)]
 VARIANTS += [{"addr": a, "noise": n, "zc": z, "slow_cb": 0.0, "name_via": "attr"} for a in ("ip", "literal") for n in (False, True) for z in ("library", "supplied")]
 VARIANTS += [{"addr": a, "noise": False, "zc": z, "slow_cb": 0.0, "name_via": "rename"} for a in ("ip", "literal") for z in ("library", "supplied")]
+# (no name given, spelled as the empty string instead of None: the name still comes from the .local host name)
+VARIANTS += [{"addr": "local", "noise": n, "zc": z, "slow_cb": 0.0, "name_via": "empty"} for n in (False, True) for z in ("library", "supplied")]
 VARIANTS += [{"addr": a, "noise": False, "zc": z, "slow_cb": 0.0, "cb_raises": cb} for a in ("ip", "local") for z in ("library", "supplied")
              for cb in ("on_connect",)]   # (a raising on_disconnect / on_connect_error hook ends the manager's retry loop on the pinned tree: the statement
 #                                          quantifies over outcomes, endings, mDNS events and start/stop calls, not over hooks that raise - observed, DESIGN §9, not judged)
